@@ -5,10 +5,10 @@ import json, subprocess
 BUILT = ["C%02d" % i for i in range(1, 21)]
 
 P = {
- "C01": dict(tech="property-based differential testing (proptest walks + constructed positions + exhaustive K+X v K tables) against an independent reference move generator",
+ "C01": dict(tech="property-based differential testing (proptest walks + constructed positions + exhaustively enumerated families: en-passant, castling and promotion laboratories, K+X v K tables) against an independent reference move generator",
    text="Exploration: at every position of generated walks, constructed random sane positions and (thorough) the complete K+X v K tables, the checked list must equal the reference model's legal set as a multiset and the unchecked list must be a duplicate-free superset whose extras are pseudo-legal self-check moves in the model. Millions of positions per run; differential oracle independent of the engine's generator.",
    note="Trusted base: the reference model (pinned to published perft totals by the self-test). Sane positions with at most 250 pseudo-legal moves only. Sampling, not proof.", ref="DESIGN.md §4 C01"),
- "C02": dict(tech="property-based differential testing of make-move against the reference model along generated games (state carried forward independently on both sides)",
+ "C02": dict(tech="property-based differential testing of make-move against the reference model along generated games (state carried forward independently on both sides), plus exhaustively enumerated en-passant / castling / promotion families with all successors",
    text="Exploration: along generated games of up to 397 plies (push and push_history) the engine's FEN fields 1-4 after every move must equal the reference model's successor, including the rule that an en-passant file is recorded iff a double push lands beside an enemy pawn.",
    note="Trusted base: reference model. Sampling of histories; kind-biased picks force castling, en passant, promotions and rook-home captures.", ref="DESIGN.md §4 C02"),
  "C04": dict(tech="property-based testing against an independent Zobrist combiner reading zobrist_bytes.bin, plus transposition/route metamorphic checks and golden values",
@@ -23,13 +23,13 @@ P.update({
  "C03": dict(tech="property-based testing of the inverse law push/pop = identity on a full observable snapshot, over generated nested play/take-back trees",
    text="Exploration: for generated roots (imported from text at a generated ply, rest played into the record) every move of the unchecked list is played and taken back, then a picked nested tree to depth 2-6 is walked like a search, king captures included; a snapshot of every observable the property lists (FEN, hash, score, king squares, length, side, both sorted lists, display text) must be identical afterwards, and taking the snapshot twice must change nothing.",
    note="Observables only; private fields are not read. Roots are sane positions; inner nodes follow unchecked moves as the search does.", ref="DESIGN.md §4 C03"),
- "C05": dict(tech="property-based collision search over the explored position set (in-shard and cross-shard merge) plus exhaustive single-feature metamorphic variation per sampled position",
+ "C05": dict(tech="property-based collision search over the explored position set (in-shard and cross-shard merge) plus exhaustive single-feature (and two-square exchange) metamorphic variation per sampled position",
    text="Exploration: injectivity of hash over every distinct position visited by the generated walks and their successors (10^7 scale, merged across shards), and for sampled positions ALL single-feature variations (side, 4 rights, 8-9 en-passant values, 63x10 square contents) imported from text must hash differently from the origin and each other.",
    note="A true 64-bit collision in ~10^7 positions has probability ~3e-6 and would be reported. Variations need not be sane positions.", ref="DESIGN.md §4 C05"),
  "C06": dict(tech="stateful property-based testing: generated search histories over one shared transposition table, in-process and through the UCI binary, judged by the reference model",
    text="Exploration: histories of 1-8 searches sharing one table, the game navigating between them (extend / take back / repetition shuffle / other root / ucinewgame / forced perpetual-check cycle with a single legal reply / search of the parent of a mating or stalemating move followed by the dead position / a search stopped by the hook after N polls followed by searches of every cached child and grandchild), depth 1-5, in-process and through the binary; every announced move must be legal in the reference model's position and no move is announced iff none is legal.",
    note="Depth-limited searches only; boards with more than 6 heavy pieces are skipped (quiescence is unbounded there). Trusted base: reference model.", ref="DESIGN.md §4 C06"),
- "C07": dict(tech="exhaustive enumeration of stop instants (node-entry poll index 0..64, then geometric) per generated position via the verification hook, plus UCI go/stop sessions",
+ "C07": dict(tech="exhaustive enumeration of stop instants (before the start, node-entry poll index 0..64, then geometric) per generated position via the verification hook, mini-sweeps at few-move positions of generated check-heavy walks, game records ending in a forced repetition, UCI go/stop sessions and self-play runs",
    text="Exploration / schedule enumeration: the hook flips the stop flag after exactly N node-entry polls for all N in 0..=64 and a geometric sample up to the full search; the answer must be a legal move whenever one exists, no node may be entered after the flip, and (sampled N) every cached child searched afterwards with the table the stopped search left must get a legal answer; through the binary: go infinite + immediate stop, go movetime 0..10, VERIF_STOP_AFTER_POLLS, and stop latency (answer within 10 s) on five fixed boards up to 9+9 queens.",
    note="Instants = node-entry polls (the only place the recursion reads the flag). Quiescence does not poll: wall-clock promptness is not asserted.", ref="DESIGN.md §4 C07"),
  "C08": dict(tech="stateful property-based testing of search termination: depth-limited histories with decisive 'info depth > N' symptom, unlimited runs on generated tiny positions with watchdog-as-stop, fixed deep limits",
